@@ -93,6 +93,26 @@ Qed.
 Lemma dedup_NoDup l : NoDup (dedup l).
 Proof. apply dedup_aux_NoDup. Qed.
 
+Lemma NoDup_app_inv {A} (a b : list A) :
+  NoDup (a ++ b) -> NoDup a /\ NoDup b /\ (forall x, In x a -> ~ In x b).
+Proof.
+  induction a as [|x a IH]; cbn; intros H.
+  - repeat split; [constructor|assumption|tauto].
+  - inversion H as [|? ? Hn Hnd]; subst. destruct (IH Hnd) as [H1 [H2 H3]]. repeat split.
+    + constructor; [|assumption]. intros Hi. apply Hn. apply in_app_iff. now left.
+    + assumption.
+    + intros y [->|Hy]; [|auto]. intros Hi. apply Hn. apply in_app_iff. now right.
+Qed.
+
+Lemma NoDup_app_intro {A} (a b : list A) :
+  NoDup a -> NoDup b -> (forall x, In x a -> ~ In x b) -> NoDup (a ++ b).
+Proof.
+  induction a as [|x a IH]; cbn; intros Ha Hb Hd; [assumption|].
+  inversion Ha; subst. constructor.
+  - rewrite in_app_iff. intros [H|H]; [contradiction|]. eapply Hd; eauto.
+  - apply IH; auto.
+Qed.
+
 (* ---------- insertion sort is a permutation ---------- *)
 From Coq Require Import Permutation.
 
